@@ -86,6 +86,19 @@ func monitorAccess(t int, site uint32, loc string, write bool) {
 	}
 }
 
+// monitorFork: everything the parent did so far happens before the child.
+func monitorFork(parent, child int) {
+	last := vc[child][child] // a recycled slot keeps counting where its previous occupant stopped
+	for i := 0; i < MaxTasks; i++ {
+		vc[child][i] = vc[parent][i]
+	}
+	if last < vc[parent][child] {
+		last = vc[parent][child]
+	}
+	vc[child][child] = last + 1
+	vc[parent][parent]++
+}
+
 func monitorAcquire(t int, p uintptr) {
 	l := lockVC[p]
 	if l == nil {
